@@ -138,6 +138,19 @@ def build(node, cache=None, rename_kw=True):
 
 
 # ---------------------------------------------------------------- equivalent flat circuit
+def visible(node):
+    """parameter names visible at the level of `node` (what its default_params list)"""
+    if node.kind == "leaf":
+        return [node.param] if node.param else []
+    out = []
+    for child, rho in node.children:
+        for x in visible(child):
+            y = rho.get(x, x)
+            if y not in out:
+                out.append(y)
+    return out
+
+
 def flatten_desc(node, values=None):
     """flat circuit (comps with concrete S at `values`), links, and the map exposed name -> (comp, pin) of `node`"""
     comps, links = [], []
@@ -158,7 +171,10 @@ def flatten_desc(node, values=None):
             return {p: (c, p) for p in n.pins}
         maps = []
         for child, rho in n.children:
-            maps.append(inst(child, env))
+            # a placement that renames x -> y hands the value of y down as x (and shields its own x); renamings are injective
+            # on the child's visible names, values not given stay at the leaves' defaults
+            sub = {x: env[rho.get(x, x)] for x in visible(child) if rho.get(x, x) in env} if rho else env
+            maps.append(inst(child, sub))
         for (i, p, j, q) in n.links:
             a, b = maps[i][p], maps[j][q]
             links.append((a[0], a[1], b[0], b[1]))
